@@ -60,6 +60,10 @@ PROFILES = [
     dict(cols="nnn", stop=1e-2, tol=1e-7, pre="lowrank", batch=[2]),
     dict(cols="nn", stop=1e-3, tol=1e-6),
     dict(cols="nn", stop=1e-2, tol=1e-7, pre="randspd", n_tridiag=2, max_tridiag_iter="="),
+    # long tridiagonalisations with a tolerance that is never reached: the off-diagonals decay through the update_tridiag
+    # threshold (1e-6) while rows are still being written
+    dict(cols="nn", n_tridiag=2, max_tridiag_iter="=", tol=1e-12),
+    dict(cols="nn", n_tridiag=1, max_tridiag_iter="=", tol=1e-12, pre="jacobi"),
 ]
 
 # closure-aliasing cells (identity-like closures: legitimate only for the identity matrix / identical batch members)
